@@ -36,7 +36,19 @@ func (s *gRPCServer) Close() error {
 }
 
 func (s *gRPCServer) Shutdown(ctx context.Context) error {
-	s.server.GracefulStop()
+	// GracefulStop waits for all pending RPCs, i.e. for ever if a stream
+	// never ends. Honor the shutdown deadline and stop hard when it expires.
+	done := make(chan struct{})
+	go func() {
+		s.server.GracefulStop()
+		close(done)
+	}()
+	select {
+	case <-done:
+	case <-ctx.Done():
+		s.server.Stop()
+		<-done
+	}
 	return nil
 }
 
